@@ -137,7 +137,12 @@ func nilv() *ty.Val            { return &ty.Val{K: ty.VNil} }
 // (templates; instantiate with VGen.Inst), or nil when no such pair is known for the type.
 //   - strings hash by folding runes, and every invalid UTF-8 byte decodes to U+FFFD
 //   - sequences hash as 31-weighted sums: 31*a + b = 31*(a+1) + (b-31)
-func colliding(env *ty.Env, t *ty.Ty) []*ty.Val {
+func colliding(env *ty.Env, t *ty.Ty) []*ty.Val { return collidingD(env, t, 3) }
+
+func collidingD(env *ty.Env, t *ty.Ty, depth int) []*ty.Val {
+	if depth == 0 {
+		return nil
+	}
 	u := env.Under(t)
 	switch u.K {
 	case ty.Basic:
@@ -158,7 +163,7 @@ func colliding(env *ty.Env, t *ty.Ty) []*ty.Val {
 			}
 		}
 	case ty.Ptr:
-		if in := colliding(env, u.Elem); in != nil {
+		if in := collidingD(env, u.Elem, depth-1); in != nil {
 			return []*ty.Val{{K: ty.VPtr, Elems: []*ty.Val{in[0]}}, {K: ty.VPtr, Elems: []*ty.Val{in[1]}}}
 		}
 	case ty.Map:
@@ -168,7 +173,7 @@ func colliding(env *ty.Env, t *ty.Ty) []*ty.Val {
 	case ty.Struct:
 		// vary the first field that has a colliding pair, base values elsewhere
 		for i, f := range u.Fields {
-			if in := colliding(env, f.T); in != nil {
+			if in := collidingD(env, f.T, depth-1); in != nil {
 				mk := func(x *ty.Val) *ty.Val {
 					es := make([]*ty.Val, len(u.Fields))
 					for j, g := range u.Fields {
